@@ -100,6 +100,47 @@ def _cases(shapes, U, costs=(0, 1, 2)):
                     yield {"U": U, "p": list(p), "q": list(q), "cost": cm}
 
 
+def run_lopsided(case):
+    """n in {1, 2} sources against m >> n unit-mass sinks (and the transpose): the optimum has a closed form (send the p0
+    units of source 0 to the columns with the smallest c0j - c1j), so very unbalanced problem sizes can be checked exactly."""
+    from vectorizers.linear_optimal_transport import transport_plan
+    n, m, pat, p0, transpose = case["n"], case["m"], case["pattern"], case["p0"], case["transpose"]
+    cost = [[float(((i * 7 + j * 3 + pat) % 5) if pat < 3 else (abs(j - m // 2) * (i + 1) % 7 if pat == 3 else ((i + j * j + pat) % 4))) for j in range(m)] for i in range(n)]
+    q = np.full(m, 1.0 / m)
+    if n == 1:
+        p = np.array([1.0])
+        opt = sum(cost[0]) / m
+    else:
+        p = np.array([p0 / m, (m - p0) / m])
+        diffs = sorted(range(m), key=lambda j: cost[0][j] - cost[1][j])
+        chosen = set(diffs[:p0])
+        opt = sum(cost[0][j] if j in chosen else cost[1][j] for j in range(m)) / m
+    C = np.array(cost)
+    if transpose:
+        p, q, C = q, p, C.T.copy()
+    try:
+        plan = np.asarray(transport_plan(p.copy(), q.copy(), np.ascontiguousarray(C)))
+    except Exception as e:
+        return res([viol("exception:lopsided:%s" % type(e).__name__, "raised %r" % (e,))], out="exc")
+    v = []
+    if (plan < -1e-12).any() or np.abs(plan.sum(axis=1) - p).max() > 1e-9 or np.abs(plan.sum(axis=0) - q).max() > 1e-9:
+        v.append(viol("marginals:lopsided", "%dx%d problem: plan marginals off by %.3g / %.3g" % (plan.shape[0], plan.shape[1], np.abs(plan.sum(axis=1) - p).max(), np.abs(plan.sum(axis=0) - q).max())))
+    tot = float((plan * C).sum())
+    if abs(tot - opt) > 1e-7 * max(1.0, abs(opt)):
+        v.append(viol("not-optimal:lopsided", "%dx%d problem (pattern %d, p0=%d): plan cost %r, optimum %r" % (plan.shape[0], plan.shape[1], pat, p0, tot, opt)))
+    return res(v, nt=repr(case), out="lopsided")
+
+
+def _lopsided_cases(tier):
+    ms = (17, 24, 40) if tier == "quick" else (17, 24, 33, 40, 64, 100)
+    for m in ms:
+        for pat in range(6):
+            for transpose in (False, True):
+                yield {"n": 1, "m": m, "pattern": pat, "p0": m, "transpose": transpose}
+                for p0 in (1, m // 3, m // 2, m - 1):
+                    yield {"n": 2, "m": m, "pattern": pat, "p0": p0, "transpose": transpose}
+
+
 def subchecks(tier, seed):
     small = [(1, 1), (1, 2), (2, 1), (1, 3), (3, 1), (2, 2), (2, 3), (3, 2)]
     if tier == "quick":
@@ -110,7 +151,9 @@ def subchecks(tier, seed):
                  ("plans_U6_N", "N", [(2, 2), (2, 3), (3, 2)], 6, (0, 1, 2)), ("plans_3x4_N", "N", [(3, 4), (4, 3)], 4, (0, 1)),
                  ("plans_4x4_N", "N", [(4, 4)], 2, (0, 1)),
                  ("plans_B", "B", small, 4, (0, 1, 2)), ("plans_I", "I", [(1, 2), (2, 1), (2, 2), (2, 3)], 4, (0, 1, 2))]
-    subs = []
+    subs = [Sub("lopsided_N", "N", (lambda: _lopsided_cases(tier)), run_lopsided, total=sum(1 for _ in _lopsided_cases(tier)),
+                describe="very unbalanced problem sizes: 1 or 2 sources against 17..40(100) unit-mass sinks and the transposed problems, 6 cost patterns; optimum in closed form",
+                nontrivial_rule="every case")]
     for name, mode, shapes, U, costs in specs:
         g = (lambda s, u, c: (lambda: _cases(s, u, c)))(shapes, U, costs)
         subs.append(Sub(name, mode, g, run_case, total=sum(1 for _ in g()),
